@@ -145,3 +145,11 @@ def prove_cell(h, name, cell, t, value):
 
 def trapped_with(out, code):
     return out.raised(Trapped) and out.exc.trap_code == code
+
+
+def lcell_int(v, t=None):
+    """an INTEGER cell holding v"""
+    c = object.__new__(CellValue)
+    c.type = t or CT.INTEGER
+    c.value = v
+    return c
